@@ -1337,6 +1337,33 @@ var (
 // entry is "<type>" or "<type>[attr, attr...]": the type and the *set* of
 // attributes are compared, so that a different spelling order of the
 // attributes (which no statement fixes) is not an alarm.
+// The ID rule of C18 is the one oracle with memory across histories. While a
+// failing history is minimised, every candidate must be judged against that
+// memory as it was *before* the failing history started, or the minimiser
+// would drop the very operation that created the collision.
+type catIDState struct{ ids, rev map[int]int }
+
+func snapshotCatIDs() catIDState {
+	s := catIDState{make(map[int]int, len(catIDs)), make(map[int]int, len(catIDRev))}
+	for k, v := range catIDs {
+		s.ids[k] = v
+	}
+	for k, v := range catIDRev {
+		s.rev[k] = v
+	}
+	return s
+}
+
+func restoreCatIDs(s catIDState) {
+	catIDs, catIDRev = make(map[int]int, len(s.ids)), make(map[int]int, len(s.rev))
+	for k, v := range s.ids {
+		catIDs[k] = v
+	}
+	for k, v := range s.rev {
+		catIDRev[k] = v
+	}
+}
+
 func eqStr(a, b []string) bool {
 	if len(a) != len(b) {
 		return false
